@@ -12,6 +12,7 @@ token : k <= 3 Interests with token lengths {0,1,8,32,33,none}; all reply orders
 """
 from __future__ import annotations
 
+import hashlib
 import itertools
 
 import ndn.encoding as enc
@@ -104,6 +105,10 @@ class World:
         if state in ('pending', 'both'):
             for key, uri, cbp in (('exact', '/d/a', False), ('prefix', '/d', True)):
                 self.callers[key] = self.loop.create_task(self._caller(key, uri, cbp))
+            # an Interest naming the exact packet by its implicit digest, and one asking for the raw packet bytes
+            dig = enc.Component.from_bytes(hashlib.sha256(get_corpus()['data-exact']).digest(), 1)
+            self.callers['digest'] = self.loop.create_task(self._caller('digest', enc.Name.from_str('/d/a') + [dig], False))
+            self.callers['raw'] = self.loop.create_task(self._caller('raw', '/d/a/b', False, raw=True))
             self.loop.drain()
         self.base_sent = len(self.face.sent)
 
@@ -130,11 +135,18 @@ class World:
                 self.app.put_raw_packet(reply_data)
             self.app.set_interest_filter(prefix, h, val if with_validator else None)
 
-    async def _caller(self, key, uri, cbp, lifetime=50):
+    async def _caller(self, key, uri, cbp, lifetime=50, raw=False):
         try:
-            res = await self.fe.express(self.app, uri, lifetime=lifetime, can_be_prefix=cbp, nonce=5)
+            if raw and self.fe_name == 'legacy':
+                res = await self.fe.express(self.app, uri, lifetime=lifetime, can_be_prefix=cbp, nonce=5, need_raw_packet=True)
+                rawpkt = bytes(res[3])
+            else:
+                res = await self.fe.express(self.app, uri, lifetime=lifetime, can_be_prefix=cbp, nonce=5)
+                rawpkt = bytes(res[2]['raw_packet']) if raw and isinstance(res[2], dict) and res[2].get('raw_packet') is not None else None
             n, c = self.fe.result(res)
             self.outcomes[key] = 'data:' + '/'.join(bytes(x).hex() for x in n) + ':' + bytes(c or b'').hex()
+            if raw and rawpkt is not None:
+                self.outcomes[key] += ':raw=' + rawpkt.hex()
         except BaseException as e:  # noqa
             o = exc_class(e)
             if o.startswith('error:'):
